@@ -323,18 +323,26 @@ def budget(art, tier, primary):
 
 def run(ctx, replay=None):
     frag, units = formats.proof_part(ctx)
+    # unit c02 proper: the verification command and the verifier dispatch (coq/C02, harness/p/c02; see cli_part below)
+    st = ctx.prepare(["C02_gen"], ["C02"], "C02.Run")
+    frag = merge_cli_proofs(ctx, frag, st)
     t0 = time.time()
     kit = e2e.Kit(ctx, with_server=True)
     if kit.build_error:
         ctx.violation("C02:relic-build", "relic binary / e2e probe does not build: " + kit.build_error[-300:], {"stderr": kit.build_error[-2000:]}, False)
         cov = dict(frag, evaluations=0, distinct_nontrivial=0, rule="none: build failed", samples=[])
+        ctx.proof_verdict()
         return ctx.finish("proof", cov, [])
     R = Run(ctx, kit)
     rng = random.Random(ctx.seed * 7919 + 2)
     thorough = ctx.tier == "thorough"
     rp = json.load(open(replay)) if replay else None
+    cli = {}
     try:
-        body(ctx, kit, R, rng, thorough, rp)
+        if not (rp and str(rp.get("key", "")).startswith("C02:cli")):
+            body(ctx, kit, R, rng, thorough, rp)
+        if not rp or str(rp.get("key", "")).startswith("C02:cli"):
+            cli = cli_part(ctx, kit, R, rng, thorough, st)
     finally:
         kit.close()
     # ------------------------------------------------------------------ verdicts
@@ -354,19 +362,24 @@ def run(ctx, replay=None):
         per[f] = {k: d[k] for k in ("mutations", "rejected", "accepted_unprotected", "accepted_protected", "probe_crash")}
         per[f]["classes"] = {k: {"rejected": v[0], "accepted_unprotected": v[1], "accepted_protected": v[2]} for k, v in sorted(d["by_class"].items())}
         per[f]["unprotected_by_specification"] = F.UNPROTECTED_NOTE.get(f, "")
-    cov.update({"evaluations": R.n_eval, "distinct_nontrivial": len(R.distinct),
+    ctx.proof_verdict()     # unit c02 (ctx.status is the status of the last prepare: coq/C02)
+    cov["verify_command"] = cli
+    cov.update({"evaluations": R.n_eval + cli.get("evaluations", 0), "distinct_nontrivial": len(R.distinct) + cli.get("distinct", 0),
                 "rule": ("for every fixture x {rsa2048 via `relic sign`, p256 via `relic serve`+`relic remote sign`%s} (+ third-party signed fixtures): baseline accepted with the signer's certificate as only trust root; "
                          "single-byte XOR at every offset (files <= %s bytes) or stratified (every structure boundary +-1 and a random interior sample per region), multi-byte overwrites, truncation at every structure boundary, "
                          "appends, insertions (before EOCD / central directory / block), member replace/insert/delete/rename/duplicate/swap with the rest of the archive byte-identical, flips of uncompressed signature members, "
                          "line/node level edits (PowerShell, clearsign, XML, ar), signature grafts from a signed variant of the same fixture, cross-key (artefact of key B under trust root A), "
-                         "corrupt .gz/.xz wrappers through `relic verify`; oracle: accept => protected view (independent readers) equals a genuinely signed artefact's view")
+                         "corrupt .gz/.xz wrappers through `relic verify`; oracle: accept => protected view (independent readers) equals a genuinely signed artefact's view; "
+                         "verification command: " + cli.get("rule", "not run"))
                         % (", p384+sha384, rsa3072+sha512" if thorough else "", "40000" if thorough else "6500"),
                 "samples": R.samples[:12], "per_format": per, "artefacts": R.art_summary, "known_findings_detail": suspected,
                 "probe_crashes": R.crashes, "accepted_unparseable": {k: {"count": len(v), "examples": v[:3]} for k, v in R.unparseable.items()}, "wall_e2e_s": round(time.time() - t0, 1),
                 "not_covered": ["fatfile.app (relic cannot sign fat Mach-O; the fixture is ad-hoc signed)", "timestamp counter-signatures (C10)"]})
     return ctx.finish("proof", cov, ["the independent readers in vlib/c02_*.py state the protected byte set of each format (hand-written from the specifications)",
                                      "RSA PKCS#1 v1.5 / ECDSA / SHA-2 are not attacked: only structural and content mutations",
-                                     "library-level verifier (signers.Verify + VerifyChain, same calls as cmdline/verify) is used for bulk mutations; the `relic verify` binary for wrapper and spot checks"])
+                                     "library-level verifier (signers.Verify + VerifyChain, same calls as cmdline/verify) is used for bulk mutations; the `relic verify` binary for wrapper and spot checks",
+                                     "verification command (coq/C02): the outcome of every primitive step (open, recognise, module Verify, chain) is an oracle of the model; the glue between them "
+                                     "(cmdline/verify, shared.Main, signers.ByMagic/ByFileName, every module's Verify glue) is translated from the source; tail calls are composed by callee name"])
 
 
 def describe_mut(m):
@@ -398,6 +411,7 @@ def body(ctx, kit, R, rng, thorough, rp):
     R.genuine = {}
     R.art_summary = []
     good = []
+    R.good = good
 
     def baseline(ap):
         a, primary = ap
@@ -432,6 +446,7 @@ def body(ctx, kit, R, rng, thorough, rp):
                 R.genuine.setdefault(a.fixture + "|" + a.fmt, set()).add(a.view)
                 good.append((a, primary))
         R.art_summary.append(st)
+    R.good = good
     # ------------------------------------------------------------------ replay of one recorded mutation
     if rp:
         for a, primary in good:
@@ -643,3 +658,335 @@ def wrappers(R, arts, rng):
                 else:
                     R.note(a.fmt, "accepted_unprotected" if ok else "rejected", "compressed-wrapper-intact")
                 os.unlink(p)
+
+
+# ====================================================================================================================
+# The verification command and the verifier dispatch (coq/C02, harness/cmd/srcgen/gen_c02.go, harness/p/c02).
+#
+# Proof side (ctx.prepare in run): cmdline/shared.Main, cmdline/verify verifyCmd / verifyOne / loadCerts, signers.ByMagic /
+# ByFileName and the Verify glue of every signer module are translated statement by statement into a small language and
+# interpreted in Coq; theorems: exit status 0 iff every named file was opened, recognised, verified by its module and chained
+# (exit_zero_iff_all_ok, for every list and every combination of per-file outcomes), no return of verifyOne or of a module's glue
+# turns a failed call into success (verify_one_errors_propagate, signers_errors_propagate, via a proved error-flow analysis),
+# the skip-digests argument of every library verifier is opts.NoDigests or false (digests_checked_unless_flag), dispatch facts.
+#
+# Harness side (cli_part): the REAL relic binary on lists of files — good, tampered, unsigned, unreadable, compressed wrappers,
+# wrong --content, untrusted signer — in many orders and under several option sets.
+#   MODEL-FREE oracle (from the property text and from how each file was made): a file that must be rejected under the option set
+#   => exit status != 0, an "<path> ERROR:" line, no "<path>: OK" line; exit status 0 => every file has an OK line.
+#   Correspondence: the driver observes the outcome of every primitive step for each (option set, file) by calling the same exported
+#   functions one by one; the extracted model (interpreting the generated programs) predicts exit status, the ERROR lines in order
+#   and the number of OK lines per file for every list; compared with the binary.
+CLI_FORMATS = ["pe-coff", "ps", "jar", "rpm", "deb", "pgp-clearsign", "pgp-inline", "appmanifest", "cab", "msi", "cat", "apk"]
+CLI_FIXTURE = {"pe-coff": "ClassLibrary1.dll", "ps": "hello.ps1"}
+
+
+def merge_cli_proofs(ctx, frag, st):
+    """adds the theorems of coq/C02/Properties.v to the coverage fragment computed by formats.proof_part"""
+    frag = dict(frag)
+    names = st.get("theorems") or []
+    frag["theorems"] = list(frag.get("theorems", [])) + ["c02cmd." + t for t in names]
+    frag["obligations"] = frag.get("obligations", 0) + max(1, len(names))
+    frag["discharged"] = frag.get("discharged", 0) + (st.get("discharged", 0) if st.get("proofs_ok") else 0)
+    frag["checker_cmd"] = frag.get("checker_cmd", "") + " ; make -C /verif/coq C02/Properties.vo C02/Run.vo"
+    tb = list(frag.get("trusted_base", []))
+    if st.get("proofs_ok"):
+        assum = sorted(set(l.strip() for l in ctx.assumptions("C02/Properties.v").splitlines() if l.strip()))
+        tb.append("Print Assumptions (C02/Properties.v, %d theorems): %s" % (len(names), " | ".join(assum)[:400]))
+    else:
+        tb.append("C02/Properties.v: NOT built (%s)" % (st.get("broken") or st.get("hygiene") or [t for t, v in (st.get("built") or {}).items() if not v]))
+    frag["trusted_base"] = tb
+    frag["srcgen_broken"] = st.get("broken")
+    return frag
+
+
+def _tamper(R, a, rng):
+    """one byte changed inside what the independent reader of the format says is protected (the protected view changes)"""
+    spec = F.FORMATS[a.fmt]
+    n = len(a.data)
+    cands = [n // 2, n // 3, (2 * n) // 3, n // 4, n // 5] + [rng.randrange(n) for _ in range(40)]
+    for off in cands:
+        b = bytearray(a.data)
+        b[off] ^= 0x20 if a.fmt in ("ps", "appmanifest", "pgp-clearsign") else 0x01
+        try:
+            v = spec["view"](bytes(b))
+        except Exception:
+            v = None
+        if v is None or v == a.view or v in R.genuine.get(a.fixture + "|" + a.fmt, ()):
+            continue
+        if spec.get("neutral") and spec["neutral"](a.view, v):
+            continue
+        return bytes(b), off
+    return None, None
+
+
+def cli_part(ctx, kit, R, rng, thorough, st):
+    t0 = time.time()
+    d = os.path.join(R.dir, "cli")
+    os.makedirs(d, exist_ok=True)
+    good = list(getattr(R, "good", []) or [])
+    have = {}
+    for a, primary in good:
+        if (not a.third_party and a.key in ("rsa2048", "p256") and (not a.flags or a.fmt.startswith("pgp-")) and "--armor" not in a.flags
+                and a.fixture not in ("hello.ps1xml", "hello.mof", "WindowsFormsApplication1.exe")):
+            have.setdefault((a.fmt, a.key), a)
+    # replay mode / missing artefacts: sign what is needed here
+    for fixture, fmt, flags in FIXTURE_FMT:
+        if (flags and not fmt.startswith("pgp-")) or "--armor" in flags or fmt not in CLI_FORMATS + ["pgp-detached"] or fixture in ("hello.ps1xml", "hello.mof", "WindowsFormsApplication1.exe"):
+            continue
+        if (fmt, "rsa2048") not in have:
+            a = R.make(fixture, fmt, "rsa2048", flags=flags)
+            if a.data is not None:
+                a.view = F.FORMATS[fmt]["view"](a.data)
+                have[(fmt, "rsa2048")] = a
+    if not hasattr(R, "genuine"):
+        R.genuine = {}
+    files = []
+
+    def add(path, label, **kw):
+        f = dict(id=len(files), path=path, label=label, signer=None, integrity="bad", detached=False, fmt=None)
+        f.update(kw)
+        files.append(f)
+        return f["id"]
+
+    def put(name, data):
+        p = os.path.join(d, name)
+        with open(p, "wb") as fh:
+            fh.write(data)
+        return p
+    ids = {}
+    for fmt in CLI_FORMATS:
+        a = have.get((fmt, "rsa2048"))
+        if not a or a.data is None:
+            continue
+        base = os.path.basename(a.path)
+        ids[("good", fmt)] = add(put("good-" + base, a.data), "good", signer="rsa-pgp" if fmt in PGP_ONLY else "rsa-x509", integrity="good", fmt=fmt)
+        if a.view is not None and fmt in ("pe-coff", "ps", "jar", "rpm", "deb", "pgp-clearsign", "appmanifest", "cab", "msi"):
+            t, off = _tamper(R, a, rng)
+            if t is not None:
+                ids[("tampered", fmt)] = add(put("tampered-" + base, t), "tampered", fmt=fmt, offset=off, signer="rsa-pgp" if fmt in PGP_ONLY else "rsa-x509")
+    for fmt in ("pe-coff", "jar", "ps"):
+        a = have.get((fmt, "p256"))
+        if a and a.data is not None:
+            ids[("otherkey", fmt)] = add(put("otherkey-" + os.path.basename(a.path), a.data), "signed-by-p256", signer="p256-x509", integrity="good", fmt=fmt)
+    tp = os.path.join(e2e.PKGS, "InRelease")
+    if os.path.exists(tp):
+        ids[("otherkey", "pgp")] = add(put("thirdparty-InRelease", open(tp, "rb").read()), "signed-by-ubuntu-key", signer="ubuntu-pgp", integrity="good", fmt="pgp-clearsign")
+    for fx in ("ClassLibrary1.dll", "hello.ps1", "hello.jar", "zlib1g_1.2.8.dfsg-5_i386.deb", "dummy.cab"):
+        ids[("unsigned", fx)] = add(put("unsigned-" + fx, open(kit.fixture(fx), "rb").read()), "unsigned")
+    ids[("junk", "txt")] = add(put("notes.txt", b"just some text, no signature format at all\n"), "unknown-type")
+    ids[("junk", "empty")] = add(put("empty.bin", b""), "empty")
+    ids[("unreadable", "missing")] = add(os.path.join(d, "does-not-exist.rpm"), "missing")
+    os.makedirs(os.path.join(d, "directory.ps1"), exist_ok=True)
+    ids[("unreadable", "dir")] = add(os.path.join(d, "directory.ps1"), "directory")
+    try:
+        os.symlink(os.path.join(d, "nowhere"), os.path.join(d, "dangling.jar"))
+        ids[("unreadable", "dangling")] = add(os.path.join(d, "dangling.jar"), "dangling-symlink")
+    except OSError:
+        pass
+    for fmt in ("rpm", "pgp-clearsign", "ps"):
+        a = have.get((fmt, "rsa2048"))
+        if not a or a.data is None:
+            continue
+        base = os.path.basename(a.path)
+        for ext, comp in ((".gz", gzip.compress), (".xz", lzma.compress), (".bz2", bz2.compress)):
+            blob = comp(a.data)
+            ids[("wrapped", fmt, ext)] = add(put("wrapped-" + base + ext, blob), "compressed" + ext, fmt=fmt)
+        bad = bytearray(gzip.compress(a.data))
+        bad[len(bad) // 2] ^= 0xff
+        ids[("wrapped-corrupt", fmt)] = add(put("corrupt-" + base + ".gz", bytes(bad)), "compressed-corrupt.gz", fmt=fmt)
+        if fmt == "ps":
+            # gzip content under a name the PowerShell module claims: recognised by name, not verifiable compressed
+            ids[("wrapped-named", fmt)] = add(put("gzipped-" + base, gzip.compress(a.data)), "compressed-named-ps1", fmt=fmt)
+    det = have.get(("pgp-detached", "rsa2048"))
+    content_good = kit.fixture("Release")
+    content_bad = None
+    if det and det.data is not None:
+        ids[("detached", "sig")] = add(put("good-Release.sig", det.data), "detached-signature", signer="rsa-pgp", integrity="good", detached=True, fmt="pgp-detached")
+        c = bytearray(open(content_good, "rb").read())
+        c[len(c) // 2] ^= 0x20
+        content_bad = put("Release-altered", bytes(c))
+    rsa = kit.keys["rsa2048"]
+    p256 = kit.keys.get("p256", {})
+    anchors = ["--cert", rsa["crt"], "--cert", rsa["pgp"]]
+    allids = [f["id"] for f in files]
+
+    def pick(*keys):
+        return [ids[k] for k in keys if k in ids]
+    core = pick(("good", "pe-coff"), ("tampered", "pe-coff"), ("good", "pgp-clearsign"), ("good", "rpm"), ("otherkey", "pe-coff"), ("unsigned", "hello.jar"), ("detached", "sig"))
+    mixed = pick(("good", "pe-coff"), ("tampered", "jar"), ("unreadable", "missing"), ("good", "pgp-clearsign"))
+    opts = [
+        dict(name="anchors", args=anchors, certs=[rsa["crt"], rsa["pgp"]], files=allids, mixed=mixed, trusted=("rsa-x509", "rsa-pgp"), chain=True, plain=True),
+        dict(name="content", args=anchors + ["--content", content_good], certs=[rsa["crt"], rsa["pgp"]], content=content_good, files=core, trusted=("rsa-x509", "rsa-pgp"), chain=True, content_ok=True),
+        dict(name="other-anchor", args=["--cert", p256.get("crt", rsa["crt"])], certs=[p256.get("crt", rsa["crt"])], files=core, trusted=("p256-x509",), chain=True, plain=True),
+        dict(name="pgp-anchor-only", args=["--cert", rsa["pgp"]], certs=[rsa["pgp"]], files=core, trusted=("rsa-pgp",), chain=True, plain=True),
+        dict(name="no-anchor", args=[], certs=[], files=core, trusted=(), chain=True),
+        dict(name="no-trust-chain", args=["--no-trust-chain"], certs=[], no_chain=True, files=core, trusted=(), chain=False),
+        dict(name="bad-cert-file", args=["--cert", os.path.join(d, "no-such-cert.pem")], certs=[os.path.join(d, "no-such-cert.pem")], files=core[:3], trusted=(), chain=True, certs_bad=True),
+        dict(name="show-certs", args=anchors + ["--show-certs"], certs=[rsa["crt"], rsa["pgp"]], show=True, files=core, trusted=("rsa-x509", "rsa-pgp"), chain=True, plain=True),
+        dict(name="system-store", args=anchors + ["--system-store"], certs=[rsa["crt"], rsa["pgp"]], system=True, files=core, trusted=("rsa-x509", "rsa-pgp"), chain=True, plain=True),
+        dict(name="no-integrity-check", args=anchors + ["--no-integrity-check"], certs=[rsa["crt"], rsa["pgp"]], no_integrity=True, files=core, trusted=("rsa-x509", "rsa-pgp"), chain=True, integrity_off=True),
+    ]
+    if content_bad:
+        opts.insert(2, dict(name="wrong-content", args=anchors + ["--content", content_bad], certs=[rsa["crt"], rsa["pgp"]], content=content_bad, files=core, trusted=("rsa-x509", "rsa-pgp"), chain=True))
+    for i, o in enumerate(opts):
+        o["id"] = i
+    plan = {"relic": kit.relic, "files": [{"id": f["id"], "path": f["path"], "label": f["label"]} for f in files],
+            "opts": [{"id": o["id"], "name": o["name"], "args": o["args"], "certs": o["certs"], "content": o.get("content", ""), "no_chain": bool(o.get("no_chain")),
+                      "no_integrity": bool(o.get("no_integrity")), "system": bool(o.get("system")), "show": bool(o.get("show")), "files": o["files"],
+                      "mixed": o.get("mixed", [])} for o in opts],
+            "pairs": 0 if thorough else 350, "tuples": 400 if thorough else 60}
+    plan_path = os.path.join(d, "plan.json")
+    json.dump(plan, open(plan_path, "w"))
+    res = {"evaluations": 0, "distinct": 0, "files": len(files), "option_sets": [o["name"] for o in opts], "by_class": {}, "exit_histogram": {}, "samples": [],
+           "rule": ("the real relic binary on every single file, every ordered pair, random lists of 3-5 files and every order of one mixed list, under %d option sets "
+                    "(anchors for both kinds / --content / altered --content / other X.509 anchor / PGP anchor only / none / --no-trust-chain / unreadable --cert / --show-certs / --system-store / "
+                    "--no-integrity-check); files: freshly signed %s, one protected byte changed (independent reader confirms), unsigned originals, signed by another key, missing / directory / "
+                    "dangling link, .gz/.xz/.bz2 wrappers and a corrupt one, unknown type, empty; oracle: a file that must be rejected => status != 0, ERROR line, no OK line; status 0 => OK line "
+                    "for every file; model (generated programs interpreted in Coq, extracted) predicts status, ERROR lines in order and OK lines per file") % (len(opts), "/".join(sorted(set(f["fmt"] for f in files if f["label"] == "good"))))}
+    if not st.get("harness_ok"):
+        res["skipped"] = "driver drv-c02 does not build"
+        return res
+    rc, out, err = ctx.drv(["cli", plan_path], timeout=1500)
+    recs = [json.loads(l) for l in out.splitlines() if l.startswith("{")]
+    if rc != 0 or not recs:
+        ctx.violation("C02:cli:driver", "driver drv-c02 cli failed (exit %s): %s" % (rc, err[-300:]), {"stderr": err[-2000:]}, False)
+        return res
+    envs, optrec, cases = {}, {}, []
+    for r in recs:
+        if r["kind"] == "env":
+            envs[(r["opt"], r["file"])] = r
+        elif r["kind"] == "opt":
+            optrec[r["opt"]] = r
+        else:
+            cases.append(r)
+    fby = {f["id"]: f for f in files}
+
+    def must_reject(f, o):
+        """from how the file was made and what the option set trusts (no reference to relic's answer)"""
+        if f["integrity"] == "bad":
+            if f["label"] == "tampered" and o.get("integrity_off"):
+                return None, None        # the caller switched integrity checking off: outside the property
+            return True, "integrity"
+        if f["detached"] and not o.get("content_ok"):
+            return True, "integrity"      # a detached signature without its content, or with altered content
+        if o.get("chain") and f["signer"] not in o["trusted"]:
+            return True, "trust"
+        if not o.get("chain"):
+            return None, None
+        if f["detached"]:
+            return False, None
+        if o.get("plain") or (o.get("content_ok") and f["fmt"] in ("pe-coff", "pgp-clearsign", "rpm")):
+            return False, None
+        return None, None
+    viol = {}
+
+    def report(key, detail, rp, found):
+        e = viol.setdefault(key, {"n": 0, "detail": detail, "rp": rp, "found": found})
+        e["n"] += 1
+    model_in, model_cases = [], []
+    distinct = set()
+    for c in cases:
+        o = opts[c["opt"]]
+        fl = [fby[i] for i in c["files"]]
+        res["evaluations"] += 1
+        res["by_class"][c["class"]] = res["by_class"].get(c["class"], 0) + 1
+        res["exit_histogram"][str(c["exit"])] = res["exit_histogram"].get(str(c["exit"]), 0) + 1
+        distinct.add((o["name"], tuple(f["label"] + ":" + str(f["fmt"]) for f in fl)))
+        lines = c["stdout"].splitlines()
+        okl, errl = {}, []
+        for f in fl:
+            p = f["path"]
+            okl[p] = sum(1 for l in lines if l.startswith(p + ": OK") or l.startswith(p + "(timestamp): OK"))
+        for l in lines:
+            for f in fl:
+                if l.startswith(f["path"] + " ERROR: "):
+                    errl.append(f["path"])
+                    break
+        rp = {"key": None, "option_set": o["name"], "command": " ".join(c["args"]), "files": [{"path": f["path"], "label": f["label"], "format": f["fmt"], "signer": f["signer"]} for f in fl],
+              "exit": c["exit"], "stdout": c["stdout"][-1500:], "stderr": c["stderr"][-600:]}
+        if len(res["samples"]) < 6 and c["class"] in ("permutation", "tuple"):
+            res["samples"].append({"option_set": o["name"], "labels": [f["label"] for f in fl], "exit": c["exit"], "ok_lines": [okl[f["path"]] for f in fl], "error_lines": len(errl)})
+        verdicts = [must_reject(f, o) for f in fl]
+        certs_bad = bool(o.get("certs_bad"))
+        bad = [(f, why) for f, (mr, why) in zip(fl, verdicts) if mr]
+        fired = False
+        if c["exit"] == 0 and (bad or certs_bad or not fl):
+            fired = True
+            what = "no file named" if not fl else ("the trust anchors could not be loaded" if certs_bad and not bad else "%s file %s (%s)" % (bad[0][0]["label"], os.path.basename(bad[0][0]["path"]), bad[0][1]))
+            report("C02:cli:exit0:%s" % (bad[0][0]["label"] if bad else ("no-file" if not fl else "bad-anchor-file")),
+                   "`relic verify` exits 0 although %s must be rejected; option set %s; list of %d file(s)" % (what, o["name"], len(fl)),
+                   dict(rp, expected="exit status != 0: " + what), True)
+        for f, why in bad:
+            if okl[f["path"]] > 0 and why == "integrity":
+                fired = True
+                report("C02:cli:ok-line:%s" % f["label"], "`relic verify` prints an OK line for %s file %s (exit %d); option set %s" % (f["label"], os.path.basename(f["path"]), c["exit"], o["name"]),
+                       dict(rp, expected="no OK line for " + f["path"]), True)
+            if f["path"] not in errl and c["exit"] != 0 and not certs_bad:
+                report("C02:cli:no-error-line:%s" % f["label"], "no ERROR line for %s file %s although the command failed; option set %s" % (f["label"], os.path.basename(f["path"]), o["name"]),
+                       dict(rp, expected="an ERROR line for " + f["path"]), False)
+        if c["exit"] == 0:
+            for f in fl:
+                if okl[f["path"]] == 0:
+                    fired = True
+                    report("C02:cli:exit0-without-verdict", "`relic verify` exits 0 but prints no OK line for %s (%s); option set %s" % (os.path.basename(f["path"]), f["label"], o["name"]),
+                           dict(rp, expected="an OK line for every file when the status is 0"), bool(must_reject(f, o)[0]))
+        if c["exit"] not in (0, 1):
+            report("C02:cli:exit-status", "`relic verify` ended with status %d (crash?) on a list of %d file(s); option set %s: %s" % (c["exit"], len(fl), o["name"], c["stderr"][-200:]), rp, False)
+        if fl and not certs_bad and all(mr is False for mr, _ in verdicts) and c["exit"] != 0:
+            report("C02:cli:good-list-rejected", "a list of correctly signed, trusted files is rejected (exit %d); option set %s: %s" % (c["exit"], o["name"], c["stdout"][-200:]), rp, False)
+        # model input
+        orc = optrec.get(c["opt"], {})
+        if orc.get("certs_ok") and any((c["opt"], i) not in envs for i in c["files"]):
+            continue
+        fe = []
+        for i in c["files"]:
+            e = envs.get((c["opt"], i))
+            if e is None:      # anchors not loadable: files are never looked at
+                fe.append([1, 1, 0, 0, 0, 0, 1, 2, []])
+            else:
+                fe.append([int(e["open"]), int(e["seek"]), int(e["magic"]), int(e["name"]), int(e["stream"]), int(e["compressed"]), int(e["decomp"]), e["verify"],
+                           [[int(g["x509"]), int(g["chain_ok"]), int(g["unknown_auth"]), int(g["countersig"])] for g in (e.get("sigs") or [])]])
+        model_in.append([[int(bool(o.get("no_integrity"))), int(bool(o.get("no_chain"))), int(bool(o.get("system"))), int(bool(o.get("show")))], int(bool(orc.get("certs_ok"))), fe])
+        model_cases.append((c, fl, okl, errl, rp, fired))
+    res["distinct"] = len(distinct)
+    res["env_panics"] = [e["err"][:120] for e in envs.values() if e.get("panic")][:5]
+    # ------------------------------------------------------------------ model
+    mismatches = 0
+    if st.get("model_ok") and model_in:
+        outs = ctx.run_model(model_in)
+        for (c, fl, okl, errl, rp, fired), mo in zip(model_cases, outs):
+            m_exit, m_spec, m_err, m_files = mo[0], mo[1], mo[2], mo[3]
+            want_err = [fl[i]["path"] for i in m_err]
+            want_ok = {}
+            for f, mf in zip(fl, m_files):
+                want_ok[f["path"]] = want_ok.get(f["path"], 0) + mf[1]
+            diff = []
+            if m_exit != c["exit"]:
+                diff.append("exit status: model %d, binary %d" % (m_exit, c["exit"]))
+            if m_exit != m_spec:
+                diff.append("model exit %d differs from the SPEC %d" % (m_exit, m_spec))
+            if want_err != errl:
+                diff.append("ERROR lines: model %s, binary %s" % ([os.path.basename(x) for x in want_err], [os.path.basename(x) for x in errl]))
+            if any(want_ok[p] != okl[p] for p in okl):
+                diff.append("OK lines: model %s, binary %s" % ({os.path.basename(k): v for k, v in want_ok.items()}, {os.path.basename(k): v for k, v in okl.items()}))
+            if diff and not fired:
+                mismatches += 1
+                report("C02:cli:model-mismatch", "the model of the verification command and the binary disagree: %s; option set %s, files %s" % ("; ".join(diff), rp["option_set"], [f["label"] for f in fl]),
+                       dict(rp, model={"exit": m_exit, "spec_exit": m_spec, "error_lines": m_err, "per_file": m_files}), False)
+        res["model_cases"] = len(outs)
+    res["model_mismatches"] = mismatches
+    # ------------------------------------------------------------------ witness of exit_zero_reports_every_file_refuted on the real command code
+    w = os.path.join(d, "payload.c02empty")
+    open(w, "w").write("anything\n")
+    pw = subprocess.run([ctx.drv_path(), "relicmain", "verify", w], stdout=subprocess.PIPE, stderr=subprocess.PIPE, env=dict(os.environ, C02_FAKE_EMPTY="1"), timeout=60)
+    pn = subprocess.run([ctx.drv_path(), "relicmain", "verify", w], stdout=subprocess.PIPE, stderr=subprocess.PIPE, env=dict(os.environ, C02_FAKE_EMPTY="0"), timeout=60)
+    res["empty_list_witness"] = {"what": "a module whose Verify returns an empty list and no error (registered only inside the driver): cmdline/verify prints nothing and exits 0; "
+                                         "no registered module of relic does this (theorem reviewed_tables_signers)",
+                                 "exit_with_fake_module": pw.returncode, "stdout_with_fake_module": pw.stdout.decode(errors="replace")[:200], "exit_without": pn.returncode,
+                                 "reproduces": pw.returncode == 0 and b": OK" not in pw.stdout}
+    for key in sorted(viol):
+        e = viol[key]
+        ctx.violation(key, "%s [%d case(s)]" % (e["detail"], e["n"]), dict(e["rp"], key=key, cases=e["n"]), e["found"])
+    res["wall_s"] = round(time.time() - t0, 1)
+    return res
